@@ -57,6 +57,7 @@ impl OpenOptions {
         ensures
             *final(fs) == *old(fs),
             f is Ok ==> old(fs).files.contains_key(path@)
+                && old(fs).files[path@].len() <= u64::MAX   // a file's size is a u64 in every API
                 && f->Ok_0@ == (FileV { path: path@, pos: 0, append: self.a, readable: self.r, writable: self.w || self.a }),
     { unimplemented!() }
 }
@@ -192,3 +193,52 @@ impl AsyncWrite for Cursor {}
 impl AsyncSeek for Cursor {}
 impl AsyncRead for File {}
 impl AsyncSeek for File {}
+
+// ---- binary_stream constructors over these streams (binary-stream-10.0.0
+//      src/futures/mod.rs `BinaryReader::new` / `BinaryWriter::new` / `flush` / `len`)
+impl BinaryWriter<Cursor> {
+    /// `BinaryWriter::new(stream, options)`: writes go to the stream at its cursor
+    #[verifier::external_body]
+    pub fn new(c: Cursor, o: EncodingOptions) -> (r: Self)
+        ensures r@ == c@,
+    { unimplemented!() }
+    /// `flush`: no effect on a Cursor
+    #[verifier::external_body]
+    pub fn flush(&mut self) -> (r: Result<()>)
+        ensures final(self)@ == old(self)@,
+    { unimplemented!() }
+    /// `len`: the length of the underlying stream, cursor restored
+    #[verifier::external_body]
+    pub fn len(&mut self) -> (r: Result<u64>)
+        ensures final(self)@ == old(self)@, r is Ok ==> r->Ok_0 == old(self)@.bytes.len(),
+    { unimplemented!() }
+    /// R22: the vector behind the writer (replaces the `&mut buffer` the real
+    /// code lends to the cursor: Verus has no mutable borrow stored in a struct)
+    #[verifier::external_body]
+    pub fn into_vec(self) -> (r: Vec<u8>)
+        ensures r@ == self@.bytes,
+    { unimplemented!() }
+}
+impl BinaryReader<File> {
+    /// `BinaryReader::new(stream, options)` over an open file: what the reader
+    /// sees is the file's content from the file's cursor.  R22: the file is
+    /// taken by value (the real code lends `&mut guard` and does not use the
+    /// guard again).
+    #[verifier::external_body]
+    pub fn new(f: File, o: EncodingOptions, Tracked(fs): Tracked<&mut Fs>) -> (r: Self)
+        requires old(fs).files.contains_key(f@.path), f@.pos <= old(fs).files[f@.path].len(),
+        ensures
+            *final(fs) == *old(fs),
+            r@ == (Stream { bytes: old(fs).files[f@.path], pos: f@.pos }),
+    { unimplemented!() }
+}
+
+/// `#[derive(PartialEq, Eq)]` of uuid::Uuid: equality of the 16 bytes
+impl vstd::std_specs::cmp::PartialEqSpecImpl for Uuid {
+    open spec fn obeys_eq_spec() -> bool { true }
+    open spec fn eq_spec(&self, other: &Uuid) -> bool { self.0@ == other.0@ }
+}
+impl PartialEq for Uuid {
+    #[verifier::external_body]
+    fn eq(&self, other: &Uuid) -> bool { self.0 == other.0 }
+}
